@@ -237,6 +237,20 @@ func genSuite(g *genCtx) {
 			g.emit(Op{Class: 'P', NonTrivial: len(l) > 1, Kind: "suite", Args: []string{fmtSuites(l), fmtSuites(adv)}})
 		}
 		g.emit(Op{Class: 'P', NonTrivial: len(l) > 1, Kind: "suite", Args: []string{fmtSuites(l), "fail"}})
+		// the same list with one of its suites repeated at the end / in the middle: the first occurrence decides
+		if len(l) >= 2 && len(l) <= 3 {
+			for _, dup := range [][]suiteT{append(append([]suiteT(nil), l...), l[0]), append(append([]suiteT{l[0], l[1]}, l[0]), l[1:]...)} {
+				for mask := 1; mask < 1<<len(universe); mask += 1 + len(l) {
+					var adv []suiteT
+					for i := range universe {
+						if mask&(1<<i) != 0 {
+							adv = append(adv, universe[i])
+						}
+					}
+					g.emit(Op{Class: 'P', NonTrivial: true, Kind: "suite", Args: []string{fmtSuites(dup), fmtSuites(adv)}})
+				}
+			}
+		}
 	}
 	// advertisements as real BMCs make them: records listing several integrity / confidentiality algorithms (one entry
 	// per combination, all under ONE ID), OEM records, IDs repeated between records, records straddling the 16-byte pages
@@ -248,6 +262,18 @@ func genSuite(g *genCtx) {
 		var prefs []suiteT
 		for _, i := range g.rng.Perm(len(universe))[:g.rng.Intn(4)] {
 			prefs = append(prefs, universe[i])
+		}
+		// preference lists may repeat a suite (the first occurrence decides) …
+		for len(prefs) > 0 && g.rng.Intn(3) == 0 {
+			at := g.rng.Intn(len(prefs) + 1)
+			d := prefs[g.rng.Intn(len(prefs))]
+			prefs = append(prefs[:at], append([]suiteT{d}, prefs[at:]...)...)
+		}
+		// … and may name suites the library cannot support ahead of ones it can
+		if g.rng.Intn(6) == 0 {
+			bad := []suiteT{{1, 0, 1}, {1, 1, 0}, {0, 1, 1}, {3, 4, 2}}[g.rng.Intn(4)]
+			at := g.rng.Intn(len(prefs) + 1)
+			prefs = append(prefs[:at], append([]suiteT{bad}, prefs[at:]...)...)
 		}
 		pick := func(pool []byte) string {
 			k := g.rng.Intn(4)
